@@ -919,7 +919,7 @@ def scenarios(draw, prof=None):
     if prof["diag"] >= 1.0 or draw(st.floats(0, 1)) < prof["diag"]:
         up["logging.save_diagnostic_info"] = True
         up["logging.save_poisedness"] = draw(st.integers(0, 7)) == 0
-    if prof["reg"] and draw(st.floats(0, 1)) < prof["reg"] and not case["scaling"]:
+    if prof["reg"] and draw(st.floats(0, 1)) < prof["reg"] and (not case["scaling"] or prof.get("reg_with_scaling")):
         case["reg"] = {"kind": draw(st.sampled_from(["l1", "l2"])), "lam": 10.0 ** draw(st.integers(-3, 0)),
                        "conv": draw(st.sampled_from(["closure", "args"]))}
         tags.append("regulariser")
